@@ -134,6 +134,46 @@ theorem slot_scenario_relaxed_races :
      | some s => s.torn && s.raced
      | none => false) = true := by decide
 
+/-! ### the per-node data cell
+
+  `slot_accesses_race_free` quantifies over `MemS.Reachable`, whose actions include `dataRd` / `dataWr`: reads and any
+  number of writes of a data cell, each inside the cell's own reader/writer lock, interleaved arbitrarily with everything
+  else and followed by the teardown.  What makes the cell fit that model is extracted from the source. -/
+
+/-- the value lives *inside* its lock (safe Rust cannot reach it otherwise), every operation is one critical section,
+    writers take the exclusive lock and the reader the shared one -/
+theorem data_lock_facts : SourceFacts.dataSlotInsideLock = true ∧ SourceFacts.dataOneSectionPerOp = true ∧
+    SourceFacts.dataSetW = true ∧ SourceFacts.dataTrySetW = true ∧ SourceFacts.dataClearW = true ∧
+    SourceFacts.dataGetW = false := by decide
+
+/-- three threads share a node: set / get / try_set / clear in an interleaved order, then everybody drops; location 1 is
+    the data cell (its slot flag stays `false`), slot 0 is an ordinary child slot -/
+def dataScenario (O : Ords) : Option MemS.Sys := do
+  let s ← MemS.step O (MemS.Sys.init [1, 0, 0] 2) 0 .clone
+  let s ← MemS.step O s 0 (.send 1)
+  let s ← MemS.step O s 0 .clone
+  let s ← MemS.step O s 0 (.send 2)
+  let s ← MemS.step O s 1 (.dataWr 1)          -- set_data
+  let s ← MemS.step O s 2 (.dataRd 1)          -- get_data
+  let s ← MemS.step O s 0 (.dataWr 1)          -- try_set_data
+  let s ← MemS.step O s 2 (.rdSlot 0)
+  let s ← MemS.step O s 2 (.wrSlot 0)
+  let s ← MemS.step O s 2 (.dataWr 1)          -- clear_data
+  let s ← MemS.step O s 1 (.dataRd 1)
+  let s ← MemS.step O s 1 .drop
+  let s ← MemS.step O s 2 .drop
+  MemS.step O s 0 .drop
+
+example : (match dataScenario ords with
+    | some s => s.torn && !s.raced && s.acc.length == 9
+    | none => false) = true := by decide
+
+/-- with a relaxed decrement the teardown races with the data accesses of the other threads -/
+theorem data_scenario_relaxed_races :
+    (match dataScenario ⟨true, true, false, false⟩ with
+     | some s => s.torn && s.raced
+     | none => false) = true := by decide
+
 /-- the handles may only be on several threads when the data and the resolver are thread safe
     (`C08.markers_sound`): the facts that theorem is instantiated with -/
 theorem marker_facts :
